@@ -112,6 +112,16 @@ async def history():
                 trace.append(("read+edit", kind, i))
                 if rng.random() < 0.7:
                     mutate(row)
+            # the multi-row getters hand out rows too: the caller edits them, which must not reach what the cached getters return
+            if rng.random() < 0.5 and ids["workflow"]:
+                w = rng.choice(ids["workflow"])
+                for rows in (await db.get_workflow_ports(w), await db.get_workflow_steps(w)):
+                    for row in rows:
+                        try:
+                            mutate(row)
+                        except TypeError:
+                            pass  # sqlite3.Row objects are read-only: nothing to edit
+                trace.append(("list+edit", "workflow", w))
             # every row, through the cache and without it
             for kind in KINDS:
                 for i in ids[kind]:
